@@ -38,6 +38,7 @@ from pdfminer.pdftypes import (
     num_value,
     resolve1,
     resolve_all,
+    str_value,
     stream_value,
 )
 from pdfminer.psexceptions import PSEOF
@@ -1088,10 +1089,10 @@ class PDFCIDFont(PDFFont):
                 raise PDFFontError("BaseFont is missing")
             self.basefont = "unknown"
         self.cidsysteminfo = dict_value(spec.get("CIDSystemInfo", {}))
-        cid_registry = resolve1(self.cidsysteminfo.get("Registry", b"unknown")).decode(
+        cid_registry = str_value(self.cidsysteminfo.get("Registry", b"unknown")).decode(
             "latin1",
         )
-        cid_ordering = resolve1(self.cidsysteminfo.get("Ordering", b"unknown")).decode(
+        cid_ordering = str_value(self.cidsysteminfo.get("Ordering", b"unknown")).decode(
             "latin1",
         )
         self.cidcoding = f"{cid_registry.strip()}-{cid_ordering.strip()}"
